@@ -8,7 +8,7 @@ LEAN_TARGETS = ['LLTD.Props.C06', 'LLTD.Props.C06H']
 VARIANT = 'plain'
 RULE = ('Emit frames from the active mapper with n in {1,2,3,cap-1,cap,random} descriptors that fit (cap = (MTU-34)/14), kinds 0/1, pauses '
         '0/1/255/random, arbitrary addresses, nonzero sequence numbers, MTU in {576,1500,9216}, direct and bridged mappers, preceded by '
-        'random session prefixes; plus declared counts exceeding what the frame carries (cap+1, 0x7FFF, 0xFFFF) and unknown kinds; '
+        'random session prefixes and, in a third of the cases, by an Emit executed on a second interface with another address; plus declared counts exceeding what the frame carries (cap+1, 0x7FFF, 0xFFFF) and unknown kinds; '
         'non-trivial = at least two Probe/Train frames and an ACK were sent; distinct = distinct projected transcript')
 ASSUMPTIONS = ['port contract as for C02']
 
@@ -23,6 +23,12 @@ def cases(rng, tier, X):
         mapper = rng.choice(F.STATIONS)
         eth = rng.choice([None, None, rng.choice(F.STATIONS)])
         ops = [F.iface_line(0, mac=own, mtu=mtu), F.glob_line()]
+        if rng.random() < 0.3:
+            # another interface of the same responder (its own address) has executed an Emit before
+            ops.insert(1, F.iface_line(1, mac=F.OWN2, mtu=rng.choice([576, 1500])))
+            m2 = rng.choice(F.STATIONS)
+            ops.append('rx 1 ' + F.discover(m2, 1, 1))
+            ops.append('rx 1 ' + F.emit(m2, F.OWN2, 5, [(1, 0, F.rand_mac(rng), F.rand_mac(rng)), (0, 1, F.rand_mac(rng), F.rand_mac(rng))]))
         if rng.random() < 0.3:
             ops += ['rx 0 ' + f for f in F.session(rng, own, n=rng.randint(0, 5))]
             ops.append('rx 0 ' + F.reset(mapper))
